@@ -191,6 +191,12 @@ func matchSettable(val interface{}, to reflect.Value) reflect.Value {
 }
 
 func (w *_node) LookupByString(key string) (datamodel.Node, error) {
+	return w.lookupByString(key, false)
+}
+
+// lookupByString is LookupByString; reprKey says that a map key of a non-string type
+// is given by its representation string (as the representation node receives it).
+func (w *_node) lookupByString(key string, reprKey bool) (datamodel.Node, error) {
 	switch typ := w.schemaType.(type) {
 	case *schema.TypeStruct:
 		field := typ.Field(key)
@@ -250,7 +256,14 @@ func (w *_node) LookupByString(key string) (datamodel.Node, error) {
 				schemaType: ktyp,
 				val:        reflect.New(valuesVal.Type().Key()).Elem(),
 			}
-			if err := (*_assemblerRepr)(asm).AssignString(key); err != nil {
+			var err error
+			if _, isEnum := ktyp.(*schema.TypeEnum); isEnum && !reprKey {
+				// at this (type) level an enum key is its member name, not its representation string
+				err = asm.AssignString(key)
+			} else {
+				err = (*_assemblerRepr)(asm).AssignString(key)
+			}
+			if err != nil {
 				return nil, err
 			}
 			kval = asm.val
